@@ -1276,7 +1276,8 @@ func (g *regGen) resource() {
 	if um != 0 {
 		res = fmt.Sprintf("u%03d", mask)
 	}
-	base := g.r.Pick([]string{"/", "/", "/v" + fmt.Sprint(rid) + "/", "/v" + fmt.Sprint(rid) + "/x/"})
+	// (a base path without a trailing slash runs into the controller's name: "/v7" + "users" = "/v7users")
+	base := g.r.Pick([]string{"/", "/", "/v" + fmt.Sprint(rid) + "/", "/v" + fmt.Sprint(rid) + "/x/", "/v" + fmt.Sprint(rid), "/w" + fmt.Sprint(rid) + "/y"})
 	if g.usedRes[res] {
 		// two resources of one controller type under one prefix would register the same paths twice
 		base = "/v" + fmt.Sprint(rid) + "/"
